@@ -14,6 +14,7 @@ import DG.EraseProto
 import DG.Trace
 import DG.FcPkg
 import DG.SubsetProto
+import DG.FcDeps
 /-! Line-protocol driver: one request per line on stdin, one answer per line on stdout. -/
 open DG DG.Sexp
 
@@ -28,6 +29,34 @@ def handle (st : DState) (req : Sexp) : DState × String :=
   | some out => (st, out)
   | none =>
   match req with
+  | .list [.atom "fc-deps-outputs", .list (.atom "top" :: ts), .list (.atom "pkgs" :: ps), .list (.atom "stale" :: ss)] =>
+    let pkg? : Sexp → Option DG.FcDeps.Pkg := fun
+      | .list [.list (.atom "recorded" :: r), .list (.atom "touched" :: t)] => do
+        pure { recorded := ← nats? r, touched := ← nats? t }
+      | _ => none
+    match nats? ts, ps.mapM pkg?, nats? ss with
+    | some top, some w, some stale =>
+      (st, match DG.FcDeps.run w 10000 (DG.FcDeps.init top) with
+        | some s =>
+          let out := DG.FcDeps.outputs w (fun p => stale.contains p) s
+          let sorted := (out.foldl (fun acc x => if acc.contains x then acc else acc ++ [x]) []).toArray.qsort (· < ·) |>.toList
+          joinSp (sorted.map toString)
+        | none => "OUT-OF-FUEL")
+    | _, _, _ => (st, "bad-op")
+  | .list [.atom "fc-deps", .list (.atom "top" :: ts), .list (.atom "pkgs" :: ps), .list (.atom "stale" :: ss)] =>
+    let pkg? : Sexp → Option DG.FcDeps.Pkg := fun
+      | .list [.list (.atom "recorded" :: r), .list (.atom "touched" :: t)] => do
+        pure { recorded := ← nats? r, touched := ← nats? t }
+      | _ => none
+    match nats? ts, ps.mapM pkg?, nats? ss with
+    | some top, some w, some stale =>
+      (st, match DG.FcDeps.run w 10000 (DG.FcDeps.init top) with
+        | some s =>
+          let out := DG.FcDeps.outputs w (fun p => stale.contains p) s
+          let sorted := (out.foldl (fun acc x => if acc.contains x then acc else acc ++ [x]) []).toArray.qsort (· < ·) |>.toList
+          "analysed " ++ joinSp (s.analysed.map toString) ++ " ; outputs " ++ joinSp (sorted.map toString)
+        | none => "OUT-OF-FUEL")
+    | _, _, _ => (st, "bad-op")
   | .list [.atom "g", gx] =>
     match graph? gx with
     | some g => ({ st with graph := g }, "ok")
